@@ -155,6 +155,10 @@ def inner_reset_then_step(self, action):
     check('observation-of-the-new-state-computed-on-demand', lambda: ghost_calls(FO) == 1
           and ghost_arg(FO, 0, 1) is ghost_result(FS, 0)[0] and o is ghost_result(FO, 0))
     check('reads-never-step-or-reset', lambda: ghost_calls(FS) == 1 and ghost_calls(FR) == 1)
+    r2 = self.step(action)
+    check('a-later-step-reports-its-own-reward-and-done-flag', lambda: ghost_calls(FS) == 2
+          and ghost_arg(FS, 1, 1) is ghost_result(FS, 0)[0] and len(r2) == 2
+          and r2[0] == ghost_result(FS, 1)[1] and r2[1] == ghost_result(FS, 1)[2])
 
 
 @lemma(args={'self': ENV, 'action': 'Action'}, stubs={FR: 'State', FO: 'Observation', DBG: 'bool'}, props=['C04', 'C01', 'C20'])
